@@ -1,9 +1,9 @@
 #!/bin/bash
-# runs every check's quick (or given) tier one after the other and prints verdict / wall time per check
+# runs every check's quick (or given) tier one after the other and prints verdict / wall time per check:  runall.sh [tier] ["C02 C03 ..."]
 cd "$(dirname "$0")/.."
 TIER=${1:-quick}
-for i in $(seq -w 1 20); do
-  id="C$i"
+IDS=${2:-$(for i in $(seq -w 1 20); do echo C$i; done)}
+for id in $IDS; do
   s=$(date +%s)
   out=$(./check $id --tier $TIER 2>&1)
   rc=$?
